@@ -36,6 +36,13 @@ type decFacts struct {
 	emptyWhenHwmEqOffset bool
 	closeStoresOffset    bool
 	oorSeeksConn         bool
+	firstOffsetConst     int64  // const FirstOffset
+	lastOffsetConst      int64  // const LastOffset
+	initResolve          string // the switch of (*reader).initialize that resolves / clamps the offset
+	initSeeksResolved    bool   // … followed by conn.Seek(<that offset>, SeekAbsolute)
+	runResetsAttempt     bool   // (*reader).run: `attempt = 0` and `offset = start` after a successful initialize
+	runErrcountInc       bool   // … `errcount++` is the last statement of readLoop's body
+	loopBranches         string // per error class of readLoop's switch: what the clause does (canonical words)
 }
 
 // decExtractor carries the file set that the renderer needs and the names declared in the function being read.
@@ -442,6 +449,11 @@ func extractDecoder(repo, root string) error {
 	}
 	d.readerRun(run, &facts)
 	d.readerRead(read, &facts)
+	initialize, err := need(rf, "reader.go", "reader", "initialize")
+	if err != nil {
+		return err
+	}
+	d.readerLoop(rf, run, initialize, &facts)
 
 	// ---- conn.go
 	cf, err := parse("conn.go")
@@ -786,6 +798,180 @@ func (d *decExtractor) readerRead(fd *ast.FuncDecl, facts *decFacts) {
 	}
 }
 
+// readerLoop: the sentinels, the resolution of the start offset in initialize, and the bookkeeping of run's two loops.
+func (d *decExtractor) readerLoop(f *ast.File, run, initialize *ast.FuncDecl, facts *decFacts) {
+	facts.firstOffsetConst, facts.lastOffsetConst = decNotShaped, decNotShaped
+	for _, decl := range f.Decls {
+		gd, ok := decl.(*ast.GenDecl)
+		if !ok || gd.Tok != token.CONST {
+			continue
+		}
+		for _, sp := range gd.Specs {
+			vs, ok := sp.(*ast.ValueSpec)
+			if !ok {
+				continue
+			}
+			for i, n := range vs.Names {
+				if i >= len(vs.Values) {
+					continue
+				}
+				v := vs.Values[i]
+				neg := false
+				if u, ok := v.(*ast.UnaryExpr); ok && u.Op == token.SUB {
+					neg, v = true, u.X
+				}
+				k, ok := decIntLit(v)
+				if !ok {
+					continue
+				}
+				if neg {
+					k = -k
+				}
+				switch n.Name {
+				case "FirstOffset":
+					facts.firstOffsetConst = k
+				case "LastOffset":
+					facts.lastOffsetConst = k
+				}
+			}
+		}
+	}
+
+	// initialize: switch { case o == FirstOffset: o = first … }; then conn.Seek(o, SeekAbsolute)
+	d.enter(initialize)
+	facts.initResolve = "?"
+	decInspect(initialize.Body, func(n ast.Node) {
+		blk, ok := n.(*ast.BlockStmt)
+		if !ok {
+			return
+		}
+		for i, s := range blk.List {
+			sw, ok := s.(*ast.SwitchStmt)
+			if !ok || sw.Tag != nil || sw.Init != nil || len(sw.Body.List) == 0 {
+				continue
+			}
+			cc, ok := sw.Body.List[0].(*ast.CaseClause)
+			if !ok || len(cc.List) != 1 {
+				continue
+			}
+			cmp, ok := cc.List[0].(*ast.BinaryExpr)
+			if !ok || decName(cmp.Y) != "FirstOffset" {
+				continue
+			}
+			facts.initResolve = d.render(sw)
+			for _, t := range blk.List[i+1:] {
+				if call := d.containsCall(t, "$1.Seek"); call != nil && len(call.Args) == 2 &&
+					decName(call.Args[0]) == decName(cmp.X) && d.render(call.Args[1]) == "SeekAbsolute" {
+					facts.initSeeksResolved = true
+				}
+			}
+		}
+	})
+
+	// run: after `conn, start, err := r.initialize(…)` and its error branch: attempt = 0; offset = start
+	d.enter(run)
+	var outer *ast.ForStmt
+	for _, s := range run.Body.List {
+		if fs, ok := s.(*ast.ForStmt); ok {
+			outer = fs
+		}
+	}
+	if outer == nil {
+		return
+	}
+	startName, offName, attemptName := "", decParamName(run, 1), ""
+	if as, ok := outer.Init.(*ast.AssignStmt); ok && len(as.Lhs) == 1 {
+		attemptName = decName(as.Lhs[0])
+	}
+	reset, fromStart := false, false
+	var readLoop *ast.ForStmt
+	for _, s := range outer.Body.List {
+		switch x := s.(type) {
+		case *ast.AssignStmt:
+			if call := d.containsCall(x, "$r.initialize"); call != nil && len(x.Lhs) == 3 {
+				startName = decName(x.Lhs[1])
+			}
+			if x.Tok == token.ASSIGN && len(x.Lhs) == 1 && len(x.Rhs) == 1 {
+				if decName(x.Lhs[0]) == attemptName && attemptName != "" {
+					if k, ok := decIntLit(x.Rhs[0]); ok && k == 0 {
+						reset = true
+					}
+				}
+				if decName(x.Lhs[0]) == offName && offName != "" && decName(x.Rhs[0]) == startName && startName != "" {
+					fromStart = true
+				}
+			}
+		case *ast.LabeledStmt:
+			if fs, ok := x.Stmt.(*ast.ForStmt); ok {
+				readLoop = fs
+			}
+		}
+	}
+	facts.runResetsAttempt = reset && fromStart
+	if readLoop == nil || len(readLoop.Body.List) == 0 {
+		return
+	}
+	if inc, ok := readLoop.Body.List[len(readLoop.Body.List)-1].(*ast.IncDecStmt); ok && inc.Tok == token.INC {
+		facts.runErrcountInc = true
+		errcountName := decName(inc.X)
+		// the switch over the error classes: for each clause, in order, the error it names and what it does
+		var words []string
+		for _, s := range readLoop.Body.List {
+			sw, ok := s.(*ast.SwitchStmt)
+			if !ok || sw.Tag != nil {
+				continue
+			}
+			for _, c := range sw.Body.List {
+				cc := c.(*ast.CaseClause)
+				name := "default"
+				if len(cc.List) == 1 {
+					name = d.render(cc.List[0])
+				}
+				var acts []string
+				for _, t := range cc.Body {
+					switch x := t.(type) {
+					case *ast.AssignStmt:
+						if len(x.Lhs) == 1 && decName(x.Lhs[0]) == errcountName {
+							acts = append(acts, "errcount="+d.render(x.Rhs[0]))
+						}
+					case *ast.BranchStmt:
+						w := x.Tok.String()
+						if x.Label != nil {
+							w += "-loop"
+						}
+						acts = append(acts, w)
+					case *ast.ReturnStmt:
+						acts = append(acts, "return")
+					case *ast.ExprStmt:
+						switch d.render(x.X) {
+						case "$1.Close()":
+							acts = append(acts, "close")
+						case "$r.sendError($1, $2)":
+							acts = append(acts, "sendError")
+						}
+					}
+				}
+				words = append(words, name+" -> "+strings.Join(acts, ","))
+			}
+		}
+		facts.loopBranches = strings.Join(words, " | ")
+	}
+}
+
+// decParamName is the name of the i-th parameter of a function ("" if there is none).
+func decParamName(fd *ast.FuncDecl, i int) string {
+	k := 0
+	for _, f := range fd.Type.Params.List {
+		for _, n := range f.Names {
+			if k == i {
+				return n.Name
+			}
+			k++
+		}
+	}
+	return ""
+}
+
 func decLeanInt(v int64) string {
 	if v < 0 {
 		return fmt.Sprintf("(%d)", v)
@@ -828,6 +1014,8 @@ func (f *decFacts) lean() string {
 		"skipEmptyLoop : Bool", "batchEndOnEmpty : Bool", "batchEndOnLast : Bool", "batchEndApplied : Bool",
 		"jumpGuard : String", "skipBelow : String", "nextOffsetPlus : Int", "readerNextOffsetPlus : Int",
 		"emptyWhenHwmEqOffset : Bool", "closeStoresOffset : Bool", "oorSeeksConn : Bool",
+		"firstOffsetConst : Int", "lastOffsetConst : Int", "initResolve : String", "initSeeksResolved : Bool",
+		"runResetsAttempt : Bool", "runErrcountInc : Bool", "loopBranches : String",
 	} {
 		b.WriteString("  " + fld + "\n")
 	}
@@ -851,6 +1039,13 @@ func (f *decFacts) lean() string {
 		"emptyWhenHwmEqOffset := " + strconv.FormatBool(f.emptyWhenHwmEqOffset),
 		"closeStoresOffset := " + strconv.FormatBool(f.closeStoresOffset),
 		"oorSeeksConn := " + strconv.FormatBool(f.oorSeeksConn),
+		"firstOffsetConst := " + decLeanInt(f.firstOffsetConst),
+		"lastOffsetConst := " + decLeanInt(f.lastOffsetConst),
+		"initResolve := " + decLeanString(f.initResolve),
+		"initSeeksResolved := " + strconv.FormatBool(f.initSeeksResolved),
+		"runResetsAttempt := " + strconv.FormatBool(f.runResetsAttempt),
+		"runErrcountInc := " + strconv.FormatBool(f.runErrcountInc),
+		"loopBranches := " + decLeanString(f.loopBranches),
 	}
 	b.WriteString("  { " + strings.Join(vals, ",\n    ") + " }\n\n")
 	b.WriteString("end KV.Gen\n")
